@@ -53,7 +53,7 @@ PLAIN.append(G("p31", "abc", ["Ix"], [("Ix", "a b Lx a"), ("Ix", "Nx"), ("Lx", "
 # input nonterminals that are left-recursive through another nonterminal: goto(entry, S) also holds completed items
 PLAIN.append(G("p32", "ab", ["Sx"], [("Sx", "a"), ("Sx", "Xu b"), ("Xu", "Sx")]))
 PLAIN.append(G("p33", "ab", ["Sx"], [("Sx", "a"), ("Sx", "Sx Yn b"), ("Yn", "")]))
-PLAIN.append(G("p34", "abc", ["Sx"], [("Sx", "Ax"), ("Sx", "Ax a"), ("Sx", "Ax b"), ("Sx", "c Ax c"), ("Ax", "a"), ("Ax", "a b")]))   # a lookahead set containing every terminal
+PLAIN.append(G("p34", "abc", ["Sx"], [("Sx", "Ax"), ("Sx", "Ax a"), ("Sx", "Ax b"), ("Sx", "c Ax c"), ("Ax", "b")]))   # a lookahead set containing every terminal
 
 # ---- precedence / associativity (C04, also used by C05 for explicit nonassoc errors) ----
 PREC = [
